@@ -422,10 +422,10 @@ func (l *keyLedger) add(r *ev.Run, ksName string, c client, kind string, v []byt
 	r.SetAdd("key_kinds_compared", kind)
 }
 
-// Run is the C02 monitor.
 // ProxyLayer, when set, runs the wire part of the monitor (real AcraServer instances with TLS identities) at the end of Run.
 var ProxyLayer func(r *ev.Run)
 
+// Run is the C02 monitor.
 func Run(r *ev.Run) {
 	defer func() {
 		if ProxyLayer != nil {
